@@ -9,5 +9,6 @@ INVARIANT PinPolicy
 INVARIANT PinHeld
 INVARIANT Carried
 INVARIANT PubkeysWritten
+INVARIANT WriteError
 VIEW View
 CHECK_DEADLOCK FALSE
